@@ -351,14 +351,115 @@ def builder_of(markup):
     for i, d in enumerate(line_start_docs()):
         if d == markup:
             return {"fn": "line_start_docs", "index": i}
+    for i, d in enumerate(boundary_like_docs()):
+        if d == markup:
+            return {"fn": "boundary_like_docs", "index": i}
     return None
 
 
-def check_markup(markup, only=None, skip=()):
+ATTR_SETS = ['id=x1 class="c d"', "hidden", 'style="display:none"', 'data="fig.svg" type="image/svg+xml"', 'data="fig.png"',
+             'type="image/png" data="x"', 'src="pic.jpg"', 'src="movie.mp4" type="video/mp4"', 'type="application/pdf" data="doc.pdf" width=1 height=1',
+             'type="text/javascript" src="a.js"', 'type="text/css" media="screen"', 'type="application/x-shockwave-flash" data="m.swf"',
+             'code="A.class" archive="a.jar" codebase="."', 'srcdoc="&lt;p&gt;x&lt;/p&gt;" src="about:blank"',
+             'DATA="FIG.SVG" TYPE="IMAGE/SVG+XML"', "data=fig.svg?v=1#top", 'href="fig.png" xlink:href="fig.png" name=n value=v', 'type="image" src="b.gif"']
+
+
+def attribute_docs(attr_sets=None, removable=("noscript", "iframe", "object", "applet", "script", "style", "embed")):
+    """Removable elements WITH ATTRIBUTES (their own standard ones -- data / type / src / code / srcdoc / media -- with image, media,
+    plug-in and script values, in both cases, with query / fragment), nested in themselves, with element content and a tail:
+    a removed element is removed whatever its start tag carries."""
+    docs = []
+    for r in removable:
+        for a in (attr_sets or ATTR_SETS):
+            if r == "embed":
+                docs.append(f"<p>VISa</p><{r} {a}>VISb<p>VISc</p>")
+                docs.append(f"<p>VISa</p><noscript>HIDa<{r} {a}>HIDb</noscript><p>VISb</p>")
+            else:
+                docs.append(f"<p>VISa</p><{r} {a}>HIDa<p>HIDb</p><{r} {a}>HIDc</{r}>HIDd</{r}><p>VISb</p>")
+    return docs
+
+
+def boundary_like_docs():
+    """Lines INSIDE removed content that read like a MIME delimiter (`--` + RFC 2046 boundary characters only): a ruler of
+    dashes in a comment, a `-- remark` line in a script template, a CSS custom property split after its colon.  In a proper
+    MIME archive they are ordinary body lines (only the declared boundary delimits)."""
+    return ["<p>VISa</p>\n<!--\n------------------\n HIDa\n------------------\n-->\n<p>VISb</p>\n",
+            "<p>VISa</p>\n<script type=\"text/template\">\n-- load defaults\nvar HIDa;\n</script>\n<p>VISb</p>\n",
+            "<p>VISa</p>\n<style>\n:root {\n--accent-color:\n HIDa;\n}\n</style>\n<p>VISb</p>\n",
+            "<div>VISa</div>\n<noscript>\n--HIDa--\n</noscript>\n<p>VISb</p>\n"]
+
+
+def module_sizes(rel, lo=16 * 1024, hi=48 * 1024 * 1024, most=4):
+    """Integer constants of the module under test that can be a SIZE threshold (literals and constant products / shifts such as
+    4 * 1024 * 1024, anywhere in the module): an archive is built just above each of them ("whatever the element contains"
+    and wherever it is stored includes how big the container is)."""
+    import ast
+    import os
+
+    def const(n):
+        if isinstance(n, ast.Constant) and type(n.value) is int:
+            return n.value
+        if isinstance(n, ast.BinOp) and isinstance(n.op, (ast.Mult, ast.LShift, ast.Pow, ast.Add)):
+            a, b = const(n.left), const(n.right)
+            if a is None or b is None or abs(a) > 1 << 40 or abs(b) > 1 << 40:
+                return None
+            try:
+                return {ast.Mult: lambda: a * b, ast.LShift: lambda: a << b if 0 <= b < 40 else None,
+                        ast.Pow: lambda: a ** b if 0 <= b < 40 else None, ast.Add: lambda: a + b}[type(n.op)]()
+            except Exception:  # noqa
+                return None
+        return None
+    try:
+        with open(os.path.join(os.environ.get("VERIF_REPO", "/repo"), rel)) as fh:
+            tree = ast.parse(fh.read())
+    except Exception:  # noqa
+        return []
+    vals = set()
+    for n in ast.walk(tree):
+        v = const(n)
+        if v is not None and lo <= v <= hi:
+            vals.add(v)
+    return sorted(vals)[-most:]
+
+
+def mhtml_archive(markup, order, eol, pad_to=0):
+    """A PROPER MIME archive (declared boundary): the text/html part with its headers in the given order, followed by a base64
+    image part that brings the archive to at least `pad_to` bytes."""
+    hdr = {"T": 'Content-Type: text/html; charset="utf-8"', "E": "Content-Transfer-Encoding: 8bit", "L": "Content-Location: http://x/"}
+    head = eol.join(["From: <Saved by Test>", "Subject: t", "MIME-Version: 1.0",
+                     'Content-Type: multipart/related; type="text/html"; boundary="----=_B"', "", ""])
+    part = "------=_B" + eol + eol.join(hdr[k] for k in order) + eol + eol + markup + eol
+    img_head = "------=_B" + eol + eol.join(["Content-Type: image/png", "Content-Transfer-Encoding: base64", "Content-Location: http://x/i.png"]) + eol + eol
+    tail = "------=_B--" + eol
+    body = head + part
+    need = pad_to - len(body.encode("utf-8")) - len(img_head) - len(tail)
+    if need > 0:
+        line = "iVBORw0KGgoAAAANSUhEUgAAAAEAAAABCAYAAAAfFcSJAAAADUlEQVR42mNkYPhfDwAChwGA60e6" + eol
+        body += img_head + line * (need // len(line) + 1)
+    return (body + tail).encode("utf-8")
+
+
+def archive_shape_wrappers(rel="sharepoint2text/parsing/extractors/mhtml_extractor.py"):
+    """read_mhtml on proper MIME archives of every header order of the html part x line ending x size just above each size
+    constant of the module (and unpadded)."""
+    def mk(order, eol, size):
+        def fn(markup):
+            from sharepoint2text.parsing.extractors.mhtml_extractor import read_mhtml
+            return next(read_mhtml(io.BytesIO(mhtml_archive(markup, order, eol, size)))).content
+        return fn
+    out = []
+    for size in [0] + module_sizes(rel):
+        for order in ("TEL", "ELT", "LTE"):
+            for eol in ("\r\n", "\n"):
+                out.append((f"read_mhtml (MIME archive, part headers {order}, eol {eol!r}, >= {size} bytes)", mk(order, eol, size + 1 if size else 0)))
+    return out
+
+
+def check_markup(markup, only=None, skip=(), wrappers=None):
     """-> failure dict or None.  Expected sets: html.parser's own events classified by the spec."""
     ev, vis, hid = expected(markup)
     body = markup
-    for name, fn in WRAPPERS:
+    for name, fn in (wrappers or WRAPPERS):
         if only and not any(o in name for o in only):
             continue
         if any(o in name for o in skip):
@@ -589,6 +690,7 @@ def grammar():
     docs += parser_error_docs()
     docs += long_prefix_docs()
     docs += line_start_docs()
+    docs += attribute_docs()
     docs += deep_docs()
     return docs
 
@@ -903,6 +1005,15 @@ def find(req):
         if bad:
             bad["derived_from"] = "regular expressions of the module under test"
             return bad
+    if "mhtml_extractor" in ob:
+        # directed: the archive around the document (header order of the part, line endings, size above the module's own size
+        # constants) x lines in removed content that look like MIME delimiters
+        ws = archive_shape_wrappers()
+        for d in line_start_docs() + boundary_like_docs():
+            bad = check_markup(d, wrappers=ws)
+            if bad:
+                bad["derived_from"] = "archive shapes x delimiter-like lines in removed content"
+                return bad
     if "msg_email_extractor" in ob:
         known_fns = {k["fn"] for k in recorded_known_docs(ob)}
         for d in long_prefix_docs() + ([] if "deep_docs" in known_fns else deep_docs()):   # directed: evidence position / removed length / depth
@@ -917,11 +1028,12 @@ def rerun(stored):
     if inp.get("documents"):
         r = check_sequence(inp["documents"])
         return r or {"reproduced": False, "note": "stored document sequence now agrees with the region spec"}
+    shaped = archive_shape_wrappers() if "(MIME archive" in (stored.get("target") or "") else None
     if inp.get("markup_builder"):
         d = globals()[inp["markup_builder"]["fn"]]()[inp["markup_builder"]["index"]]
-        return check_markup(d) or {"reproduced": False, "note": "stored document now agrees with the region spec"}
+        return check_markup(d, wrappers=shaped) or {"reproduced": False, "note": "stored document now agrees with the region spec"}
     if inp.get("markup"):
-        r = check_markup(inp["markup"])
+        r = check_markup(inp["markup"], wrappers=shaped)
         return r or {"reproduced": False, "note": "stored markup now agrees with the region spec"}
     if inp.get("events"):
         ev = [tuple(e) for e in inp["events"]]
